@@ -47,7 +47,7 @@ impl NestedLoopJoinExecutor {
                         else {
                             panic!("join condition should return bool");
                         };
-                        yield chunk.filter(a.true_array());
+                        yield chunk.filter(&a.true_array());
                         filter_builder.append(&a);
                     }
                     tokio::task::consume_budget().await;
@@ -62,7 +62,7 @@ impl NestedLoopJoinExecutor {
             let ArrayImpl::Bool(a) = Evaluator::new(&self.condition).eval(&chunk)? else {
                 panic!("join condition should return bool");
             };
-            yield chunk.filter(a.true_array());
+            yield chunk.filter(&a.true_array());
             filter_builder.append(&a);
         }
         let filter = filter_builder.take();
